@@ -579,7 +579,9 @@ class DimensionValue(Value):
                     val = float(sign + v)
                 else:
                     val = int(sign + v)
-            except ValueError:
+                    # must be usable in float arithmetic, e.g. of colours
+                    float(val)
+            except (ValueError, OverflowError):
                 # e.g. more digits than int() converts
                 val = None
             if val is None or val in (float('inf'), float('-inf')):
